@@ -621,6 +621,41 @@ class ExecGen:
                     body.insert(0, ir.st_expr(call('systemPartial', var(target), num(1)), 'g1'))
                     entry['stmts'].append(ir.st_expr(call('g1', num(3)), 'n2'))
                 fixup_file(entry)
+        # a function library (a file of function statements only) included, one of its names re-bound by the includer,
+        # and the same text included AGAIN — by the same reference, by another spelling of it, or as a copy at another
+        # location: every include statement executes its file, so the library's binding is back afterwards; calls
+        # before, between and after tell which binding is in force
+        if k['include'] and k.get('p_funclib') and r.random() < k['p_funclib']:
+            import copy
+            from . import resolve as R
+            lname = f'fnL{r.randint(0, 1)}'
+            lib_stmts = [ir.st_function(lname, [], [self.tick(), ir.st_return(num(81))])]
+            if r.random() < 0.5:
+                lib_stmts.append(ir.st_function('fnL2', ['a0'], [ir.st_return(binop('+', var('a0'), num(1)))]))
+            refs_l = []
+            for ref in r.sample(['flib.bare', './flib.bare', 'lib0/../flib.bare', 'copy/flib.bare', 'lib1/flib.bare'], 2):
+                location = R.ref_resolve(main_location, ref) if main_location is not None else ref
+                norm = R.normalise(location)
+                if self.files.get(norm) is None:
+                    self.files[norm] = self.file_entry([copy.deepcopy(st) for st in lib_stmts])
+                refs_l.append(ref)
+            if r.random() < 0.5:
+                refs_l[1] = refs_l[0]
+            rebind = ir.st_function(lname, [], [self.tick(), ir.st_return(num(82))]) if r.random() < 0.7 else \
+                ir.st_function(lname, ['a0'], [ir.st_return(var('a0'))])
+
+            def use():
+                self.n_obs += 1
+                return ir.st_expr(call('hostObserve', s(f'o{self.n_obs}'), call(lname)))
+            self.used_hosts.add('hostObserve')
+            seq = [ir.st_include(refs_l[0]), use(), rebind, use(), ir.st_include(refs_l[1]), use()]
+            if r.random() < 0.3:
+                seq.insert(3, self.tick())
+            pos = r.randint(0, len(body))
+            for st in seq:
+                pos = r.randint(pos, len(body))
+                body.insert(pos, st)
+                pos += 1
         stmts.extend(body)
         if r.random() < 0.5:
             stmts.append(ir.st_return(self.any_expr(scope)))
